@@ -22,8 +22,8 @@ TIERS = {
     "thorough": dict(runs=50000, timeout=180, max_ops=40, shrink_seconds=300, shrink_steps=800),
 }
 
-DIRS = ["", "sub", "sub/deep", "other", "data dir", "sub/ünï"]
-NB_NAMES = ["a.ipynb", "b.ipynb", "c.ipynb", "x y.ipynb", "z.ipynb", "a (1).ipynb"]
+DIRS = ["", "sub", "sub/deep", "other", "data dir", "sub/ünï", "-opt"]
+NB_NAMES = ["a.ipynb", "b.ipynb", "c.ipynb", "x y.ipynb", "z.ipynb", "a (1).ipynb", "-lead.ipynb"]
 OTHER_NAMES = ["notes.txt", "script.py", "d.ipynb.bak", "README.md", "e.json"]
 
 _real_popen = subprocess.Popen
@@ -113,7 +113,9 @@ def generate(rng, index, cfg):
         cwd = q["cwd"]
 
         def rel(p):
-            return os.path.relpath(p, cwd or ".")
+            r = os.path.relpath(p, cwd or ".")
+            # on a command line a name with a leading dash is spelled ./-name (it would be read as an option)
+            return "./" + r if (r.startswith("-") and q["api"] == "cli") else r
         if r < 0.45 or not cands:
             q["paths"] = None
         elif r < 0.65:
